@@ -154,8 +154,8 @@ FORMS_N = {
     "second-by-name-star-dstar": "{S}(*tr('xs', [1]), **tr('kw', {{'y': 2}}))",
 }
 FAIL_R = "{S}(tr('f', 1.5))"
-SPECIALS = {"recurse": "recurse", "call_next": "call_next", "self-name": "fself", "renamed": "rec"}
-KINDS = ["function", "closure", "pos-default", "kw-default", "method", "lambda-default", "strict-first"]
+SPECIALS = {"recurse": "recurse", "call_next": "call_next", "self-name": "fself", "renamed": "rec", "closure-name": "me"}
+KINDS = ["function", "closure", "pos-default", "kw-default", "method", "lambda-default", "strict-first", "closure-selfname"]
 
 FIXED = '''
 def leaf_s(x: str):
@@ -207,6 +207,12 @@ def make_source(context, form, special, kind):
         src = FIXED_STRICT + "def tested(x: int):\n" + indent(body, 4) + "\n"
     elif kind == "closure":
         src = FIXED + "def make(cv):\n    def tested(x: int):\n        tr('cv', cv)\n" + indent(body, 8) + "\n    return tested\n"
+    elif kind == "closure-selfname":
+        # the function's own name is itself a closure variable (f = Ovld() inside a factory), between two other closure
+        # variables in sorted order: the rewriting removes it from the free variables of the recompiled method
+        src = (FIXED + "def make(cv):\n    me = None\n    zz = ('zz', cv)\n\n    def tested(x: int):\n        tr('cv:' + str(cv), cv)\n"
+               "        tr('zz:' + type(zz).__name__ + str(zz[1:]), zz)\n" + indent(body, 8) +
+               "\n\n    def setme(v):\n        nonlocal me\n        me = v\n\n    tested.setme = setme\n    return tested\n")
     elif kind == "pos-default":
         src = FIXED + "def tested(x: int, y: tuple = DEF1):\n    tr('d', y)\n" + indent(body, 4) + "\n"
     elif kind == "kw-default":
@@ -270,7 +276,9 @@ def build_real(src, fname, kind, special):
     for nm in ("leaf_s", "leaf_t", "l2", "lk", "base"):
         ov.register(glb[nm])
     glb["fself"] = ov.dispatch
-    tested = [glb["make"]("CV1"), glb["make"]("CV2")] if kind == "closure" else [glb["tested"]]
+    tested = [glb["make"]("CV1"), glb["make"]("CV2")] if kind == "closure" else [glb["make"]("CV1")] if kind == "closure-selfname" else [glb["tested"]]
+    if kind == "closure-selfname":
+        tested[0].setme(ov.dispatch)
     ov.register(tested[0], priority=1)
     fns = [ov]
     if kind == "closure":
@@ -333,7 +341,9 @@ def build_ref(src, fname, kind, special):
 
     glb.update(recurse=dispatch, call_next=cnext, rec=dispatch, fself=dispatch)
     exec(compile(src, fname, "exec"), glb, glb)
-    tested = [glb["make"]("CV1"), glb["make"]("CV2")] if kind == "closure" else [glb["tested"]]
+    tested = [glb["make"]("CV1"), glb["make"]("CV2")] if kind == "closure" else [glb["make"]("CV1")] if kind == "closure-selfname" else [glb["tested"]]
+    if kind == "closure-selfname":
+        tested[0].setme(dispatch)
 
     def entry(i):
         def run(*a, **k):
@@ -467,6 +477,8 @@ def cases(tier):
                 for kind in KINDS:
                     if kind == "strict-first" and form == "dstar":
                         continue  # the first position cannot be given by name there
+                    if (kind == "closure-selfname") != (special == "closure-name"):
+                        continue  # the closure-held own name only exists in that kind, and is what that kind is about
                     yield context, form, special, kind
     if tier != "quick":
         for context in CONTEXTS:
@@ -510,8 +522,8 @@ def main(tier):
              "decorator, raise after the call, while / assert / augmented and annotated assignment, starred and ** displays, slice, comparison chain, "
              "match subject, yield from, except / else / with bodies, method of a nested class, doubly nested def, lambda in a comprehension, "
              "nested comprehension, starred assignment, nonlocal target, class body, locals named type / isinstance / map, a call following a completed inner comprehension inside a comprehension iterable / second for clause / class body; thorough: and depth 2 = each of 12 expression contexts around the call inside every statement context, for recurse / call_next on three kinds) x 14 call forms (positional, two, keyword, starred, second positional by name directly / through ** / with * and **, "
-             "double-starred, nested in the first / a later / a keyword argument / both) x 4 special names (recurse, call_next, the function's own name, a renamed import) x 7 "
-             "function kinds (module-level, a function whose first position is strictly positional (named differently by every method), closure instantiated twice, positional defaults, keyword-only defaults, method with "
+             "double-starred, nested in the first / a later / a keyword argument / both) x 5 special names (recurse, call_next, the function's own name as a global / as a closure variable, a renamed import) x 8 "
+             "function kinds (module-level, a method whose own function is a closure variable between two others, a function whose first position is strictly positional (named differently by every method), closure instantiated twice, positional defaults, keyword-only defaults, method with "
              "self, lambda / generator expression in the signature); each built twice from one source text; compared: acceptance, result, exception, order and multiplicity of "
              "argument evaluation (tracer log), generator laziness, defaults, file and line of the raising frame",
         assumptions=["the reference side binds the special names to ordinary Python callables with the documented meaning and never "
